@@ -381,8 +381,42 @@ def h3_cases(tier):
     return [dict(n=2, kind=k) for k in ("bs.reflectivity", "bs.loss", "ps.loss", "loss.loss")]
 
 
+def h4_loss_modes(ctx, via, kind):
+    """U_full has exactly one extra mode per loss element, also when the loss is given as
+    a Parameter whose value is 0 when the component is added (a plain 0 adds none)"""
+    lw = ctx.lw
+    r = ctx.real("r", 0, 1)
+    lam = ctx.real("lam", 0, 1)
+    ctx.assume(lam > 0)
+    loss = {"param0": lw.Parameter(0), "param": lw.Parameter(lam), "plain": lam, "plain0": 0}[kind]
+    c = lw.Circuit(2)
+    if via == "bs":
+        c.bs(0, reflectivity=r, loss=loss)
+        n_el = 2
+    elif via == "ps":
+        c.ps(1, ctx.angle("phi"), loss=loss)
+        n_el = 1
+    else:
+        c.loss(0, loss)
+        n_el = 1
+    if kind == "plain0" and via != "loss":
+        n_el = 0
+    ctx.check(c.U_full.shape == (2 + n_el, 2 + n_el), f"{via}:{kind}:one-extra-mode-per-loss-element")
+    if kind == "param0":
+        loss.set(lam)
+        refc = lw.Circuit(2)
+        if via == "bs":
+            refc.bs(0, reflectivity=r, loss=lam)
+        elif via == "ps":
+            refc.ps(1, ctx.angle("phi"), loss=lam)
+        else:
+            refc.loss(0, lam)
+        ctx.check_eq(c.U, refc.U, f"{via}:{kind}:U-carries-the-amplitude-factor-of-the-current-loss")
+
+
 def harnesses(tier):
     return [
+        ("H4.loss-modes", h4_loss_modes, [dict(via=v, kind=k) for v in ("bs", "ps", "loss") for k in ("param0", "param", "plain", "plain0")]),
         ("H1.step", h1_step, h1_cases(tier)),
         ("H1u.unitary", h1u_unitary, h1u_cases(tier)),
         ("H2.program", h2_program, h2_cases(tier), dict(max_paths=60000, max_seconds=3000)),
